@@ -1007,7 +1007,7 @@ def matcher_ids(case, result, codes):
     if 10 in codes:
         ids.append("text." + (result.get("text") or "").split(":")[0])
     if 5 in codes:
-        ids.append("policy.impl_%s" % (("err_" + result.get("perr")) if result.get("perr") else "ok_" + result["policy"]["kind"]))
+        ids.append("policy.impl_%s" % (("err_" + result.get("perr")) if result.get("perr") else "ok_" + str((result.get("policy") or {}).get("kind", "unknown"))))
     return ids
 
 
